@@ -124,7 +124,7 @@ def gen_mutation_doc(rng, s):
 async def run_case(ctx, rng, index):
     so = smodel.GenOpts(n_objects=(2, 3), n_interfaces=(0, 1), n_unions=(0, 1), fields=(2, 3), p_gate=0.25,
                         p_mutation=1.0, p_nonnull=rng.choice([0.2, 0.5]),
-                        p_shared_root=0.25 if index % 2 else 0.0)
+                        shared_root=(index % 8 == 5))
     s = smodel.gen_schema(rng, so)
     if rng.random() < 0.5:
         for t in s.objects():
